@@ -3,7 +3,7 @@ import re
 
 from ..engine import CALLS, CTORS, atomic_ops, atomic_field_of, callee_fq, path, unwrap
 from ..flow import TooManyPaths
-from ..rcu import RCU, NODE, ZLN, all_paths, insertion_body, forwards_to_sibling
+from ..rcu import RCU, NODE, ZLN, all_paths, insertion_body, forwards_to_sibling, node_names
 from .. import common
 from . import c05
 
@@ -111,11 +111,12 @@ def publish(ctx, rid="C12.publish", reentrancy=True):
             except TooManyPaths:
                 ctx.broken("too many paths in " + f.label)
             front = "front" in nm
+            names = node_names(f, NN)
             for pe in ps:
                 ev = pe.events
-                pubs = [e for e in ev if e["k"] in ("astore", "armw") and e.get("val") == NN and
-                        e["fld"] in ((RCU, "m_head"), (NODE, "next")) and not (e["obj"] or "").startswith(NN)]
-                own = [e for e in ev if e["k"] in ("astore", "armw") and (e["obj"] or "") == NN + "->next"]
+                pubs = [e for e in ev if e["k"] in ("astore", "armw") and e.get("val") in names and
+                        e["fld"] in ((RCU, "m_head"), (NODE, "next")) and not any((e["obj"] or "").startswith(n) for n in names)]
+                own = [e for e in ev if e["k"] in ("astore", "armw") and (e["obj"] or "") in {n + "->next" for n in names}]
                 ok = len(pubs) == 1
                 ctx.ob(rid, ok, f.where, "%s makes the new node reachable with exactly one store on each path" % nm,
                        "" if ok else "publishing stores: %s" % [(e["obj"], e["k"]) for e in pubs], fn=f.label, inst=f.qname)
@@ -174,7 +175,7 @@ def publish(ctx, rid="C12.publish", reentrancy=True):
                 # the writer-side bookkeeping (m_tail) is updated on every path
                 tl = [e for e in ev if e["k"] in ("astore",) and e["fld"] == (RCU, "m_tail")]
                 if not front or not nonempty:
-                    ok = len(tl) == 1 and tl[0].get("val") == NN
+                    ok = len(tl) == 1 and tl[0].get("val") in names
                     ctx.ob(rid, ok, f.where, "m_tail follows the insertion", "" if ok else "m_tail stores: %s" % [t.get("val") for t in tl],
                            fn=f.label, inst=f.qname)
 
